@@ -1,6 +1,7 @@
 package main
 
 import (
+	"encoding/json"
 	"fmt"
 
 	"github.com/privacybydesign/gabi"
@@ -78,7 +79,12 @@ func suiteC02(s *Suite, rng *Rng, tier string) {
 					L{kind, ctx, nonce, issig, len(pl)})
 			}
 			if !changed && !acc {
-				s.Violate("C02:honest-rejected", "honest proof list rejected ("+sess.Desc+")", L{kind})
+				js, _ := json.Marshal(pl)
+				ns := L{}
+				for _, pk := range pks {
+					ns = append(ns, pk.N)
+				}
+				s.Violate("C02:honest-rejected", "honest proof list rejected ("+sess.Desc+"): "+diagnoseRejection(pl, pks, ctx, nonce, issig), L{kind, ctx, nonce, issig, ns, string(js)})
 			}
 		}
 		small := allTiny && smallLeft > 0 && n <= 2
@@ -267,4 +273,42 @@ func suiteC03(s *Suite, rng *Rng, tier string) {
 	s.Notes["rule"] = "lists of 2..4 builders (disclosure/issuance) over toy and 1024-bit keys, 1..3 distinct secrets assigned at random, " +
 		"labellings nil / all-equal / set partitions; adversarial variants disclosing part of attribute 0 or adding a second response " +
 		"for base R_0; oracle: accepted iff same label => same secret; distinct by (round, labels, assignment)"
+}
+
+
+// diagnoseRejection re-does the steps of ProofList.Verify with the library's exported pieces to say which proof
+// of an honest list fails and at which step
+func diagnoseRejection(pl gabi.ProofList, pks []*gabikeys.PublicKey, ctx, nonce *gbig.Int, issig bool) (out string) {
+	defer func() {
+		if r := recover(); r != nil {
+			out += fmt.Sprintf(" [diagnosis panicked: %v]", r)
+		}
+	}()
+	pl = cloneList(pl)
+	var contribs []*gbig.Int
+	for i, p := range pl {
+		c, err := p.ChallengeContribution(pks[i])
+		if err != nil {
+			return fmt.Sprintf("proof %d: ChallengeContribution: %v", i, err)
+		}
+		contribs = append(contribs, c...)
+	}
+	ch := gabi.VerifCreateChallenge(ctx, nonce, contribs, issig)
+	for i, p := range pl {
+		if !p.VerifyWithChallenge(pks[i], ch) {
+			d := fmt.Sprintf("proof %d fails VerifyWithChallenge", i)
+			if pd, ok := p.(*gabi.ProofD); ok {
+				d += fmt.Sprintf(" (challenge equal: %v)", pd.C.Cmp(ch) == 0)
+				for idx, r := range pd.AResponses {
+					d += fmt.Sprintf(" resp[%d]:%d bits", idx, r.BitLen())
+				}
+				d += fmt.Sprintf(" e:%d v:%d bits; LmCommit %d LeCommit %d", pd.EResponse.BitLen(), pd.VResponse.BitLen(), pks[i].Params.LmCommit, pks[i].Params.LeCommit)
+			}
+			out += d + "; "
+		}
+	}
+	if out == "" {
+		out = "every proof passes VerifyWithChallenge with the recomputed challenge"
+	}
+	return
 }
